@@ -111,6 +111,16 @@ def ghost (j : Json) : Except String Json := do
   let a1 := setGhostAll faces a0
   pure (jQs ((allIdx fshape).map a1))
 
+/-- regroup a list of faces into per-axis data if it is exactly the list of all faces of a grid
+with `nax` axes in the order of `BoundariesList.set_ghost_cells` (axis by axis, upper side first) -/
+def toSpecs (nax : Nat) : Nat → List (Face × Rat × Cond Rat) → Option (List (AxisSpec Rat))
+  | k, [] => if k = nax then some [] else none
+  | k, (fu, dxu, cu) :: (fl, dxl, cl) :: rest =>
+    if fu.axis = k ∧ fl.axis = k ∧ fu.side = .upper ∧ fl.side = .lower ∧ dxu = dxl then
+      (toSpecs nax (k + 1) rest).map (fun r => ⟨dxu, (fl.normal, cl), (fu.normal, cu)⟩ :: r)
+    else none
+  | _, _ => none
+
 /-- as `ghost`, and additionally which entries (flat indices) are the result of a division by
 zero in an expression condition (`div0`) and which are written by a `mixed` condition at a
 singular finite coefficient (`sing`): {"a": [...], "div0": [k..], "sing": [k..]} -/
@@ -122,13 +132,96 @@ def ghost2 (j : Json) : Except String Json := do
   let fshape := List.replicate rank dim ++ shape.map (· + 2)
   let a0 : List Int → Rat := arrFn fshape data
   let (faces, sing) ← parseFaces j shape rank
-  let a1 := setGhostAll faces a0
+  -- a request that lists every face of the grid in setter order is evaluated through
+  -- `setBoundaries` (the definition `Props/C02b` speaks about); "grid" says which one was used
+  let specs := toSpecs shape.length 0 faces
+  let a1 := match specs with
+    | some sp => setBoundaries shape rank sp a0
+    | none => setGhostAll faces a0
   let all := allIdx fshape
   let div0 := (all.zipIdx).filterMap (fun (p : List Int × Nat) =>
     if faces.any (fun fc => fc.1.writes p.1 && divByZero fc.1 fc.2.1 fc.2.2 p.1) then some p.2 else none)
   let sng := (all.zipIdx).filterMap (fun (p : List Int × Nat) =>
     if sing.any (fun fs => fs.1.writes p.1 && fs.2 (fs.1.valueIdx p.1)) then some p.2 else none)
-  pure (Json.mkObj [("a", jQs (all.map a1)), ("div0", toJson div0), ("sing", toJson sng)])
+  pure (Json.mkObj [("a", jQs (all.map a1)), ("div0", toJson div0), ("sing", toJson sng),
+    ("grid", toJson specs.isSome)])
+
+/-- a condition whose value may be linked: `"slot": k` in the condition's JSON means "reads the
+external array in slot k" (the `v`/`vinf` fields of the condition are then ignored) -/
+def parseLCond (j : Json) (ncomp : Nat) : Except String (LCond Rat) := do
+  let kind ← fldS j "kind"
+  let vshape ← (do match fldOpt j "vshape" with | some v => getL getN v | none => pure [])
+  let ref : Except String (ValRef Rat) := do
+    match fldOpt j "slot" with
+    | some k => pure (.linked (← getN k))
+    | none =>
+      let v ← getArr j "v"
+      match fldOpt j "vinf" with
+      | some _ => do
+        let fl ← getArr j "vinf"
+        pure (.own (valFn vshape ncomp v) (fun vi => valFn vshape ncomp fl vi != 0))
+      | none => pure (.own (valFn vshape ncomp v) (fun _ => false))
+  match kind with
+  | "dirichlet" => do pure (.dirichlet (← ref))
+  | "neumann" => do pure (.neumann (← ref))
+  | "curvature" => do pure (.curvature (← ref))
+  | "mixed" => do
+    let c ← getArr j "c"
+    pure (.robin (← ref) (valFn vshape ncomp c))
+  | _ => do pure (.fixed (← parseCond j ncomp))
+
+/-- as `toSpecs` for conditions with linked values -/
+def toLSpecs (nax : Nat) : Nat → List (Nat × Bool × Bool × Rat × LCond Rat) → Option (List (LAxisSpec Rat))
+  | k, [] => if k = nax then some [] else none
+  | k, (axu, upu, nu, dxu, cu) :: (axl, upl, nl, dxl, cl) :: rest =>
+    if axu = k ∧ axl = k ∧ upu = true ∧ upl = false ∧ dxu = dxl then
+      (toLSpecs nax (k + 1) rest).map (fun r => ⟨dxu, (nl, cl), (nu, cu)⟩ :: r)
+    else none
+  | _, _ => none
+
+/-- the setter with linked values: the request of `ghost2` where a condition may carry `"slot": k`,
+plus `"store": [{"vshape":[..], "ncomp": n, "v":[..], "vinf":[..]?} ..]` = the content of the
+external arrays at the time of the call.  Evaluates `setBoundariesLinked`; same answer as `ghost2` -/
+def linked (j : Json) : Except String Json := do
+  let shape ← fldNs j "shape"
+  let rank ← fldN j "rank"
+  let dim ← fldN j "dim"
+  let data ← getArr j "data"
+  let fshape := List.replicate rank dim ++ shape.map (· + 2)
+  let a0 : List Int → Rat := arrFn fshape data
+  let storeJ ← (do getL pure (← fld j "store"))
+  let slots ← storeJ.mapM fun sj => do
+    let vshape ← (do getL getN (← fld sj "vshape"))
+    let ncomp ← fldN sj "ncomp"
+    let v ← getArr sj "v"
+    let fl ← (match fldOpt sj "vinf" with | some _ => do pure (some (← getArr sj "vinf")) | none => pure none)
+    pure (valFn vshape ncomp v, fun vi => match fl with
+      | some f => valFn vshape ncomp f vi != 0
+      | none => false)
+  let st : Store Rat :=
+    ⟨fun k => (slots.getD k (fun _ => 0, fun _ => false)).1, fun k => (slots.getD k (fun _ => 0, fun _ => false)).2⟩
+  let facesJ ← (do getL pure (← fld j "faces"))
+  let fl ← facesJ.mapM fun fj => do
+    let axis ← fldN fj "axis"
+    let upper ← fldB fj "upper"
+    let normal ← fldB fj "normal"
+    let dx ← fldQ fj "dx"
+    let c ← parseLCond (← fld fj "cond") (if normal then rank - 1 else rank)
+    pure (axis, upper, normal, dx, c)
+  match toLSpecs shape.length 0 fl with
+  | none => throw "linked: the faces are not the complete list of the grid's faces in setter order"
+  | some lspecs =>
+    let a1 := setBoundariesLinked shape rank lspecs st a0
+    let faces := boundaryFaces shape rank (lspecs.map (·.resolve st))
+    let all := allIdx fshape
+    let div0 := (all.zipIdx).filterMap (fun (p : List Int × Nat) =>
+      if faces.any (fun fc => fc.1.writes p.1 && divByZero fc.1 fc.2.1 fc.2.2 p.1) then some p.2 else none)
+    let sng := (all.zipIdx).filterMap (fun (p : List Int × Nat) =>
+      if faces.any (fun fc => fc.1.writes p.1 && (match fc.2.2 with
+        | .mixed _ g _ => decide (2 + fc.2.1 * g (fc.1.valueIdx p.1) = 0)
+        | _ => false)) then some p.2 else none)
+    pure (Json.mkObj [("a", jQs (all.map a1)), ("div0", toJson div0), ("sing", toJson sng),
+      ("grid", toJson true)])
 
 /-- virtual point data of one condition for every element of its value array:
 {"kind", "dx", "N", "upper", "v":[..], "c":[..], "vinf":[..]} ->
@@ -238,5 +331,5 @@ def aliases (_ : Json) : Except String Json :=
   pure (Json.arr (aliasTable.map (fun p => Json.arr #[Json.str p.1, Json.str (kindName p.2)])).toArray)
 
 def handlers : List (String × Handler) :=
-  [("c02.ghost", ghost), ("c02.ghost2", ghost2), ("c02.vpdata", vpdata), ("c02.parse", parseH), ("c02.aliases", aliases)]
+  [("c02.ghost", ghost), ("c02.ghost2", ghost2), ("c02.linked", linked), ("c02.vpdata", vpdata), ("c02.parse", parseH), ("c02.aliases", aliases)]
 end PdeVerif.Drv.C02
